@@ -314,6 +314,36 @@ def linprogStats (P : LP α) (maxIter : Nat) (tol : Tol α) : Nat × List Nat ×
     let (r2, s) := solveTableauStats tol true (maxIter - r1.iters) T1 r1.basis s
     (r2.status, r2.basis, s)
 
+/-! ### work buffers as explicit inputs: `_initialize_tableau` writing into a caller-supplied
+    `tableau=` array of the right shape, as the sequence of partial writes the code performs.
+    `initTableauBuf_eq` (proofs) shows the previous content of the buffer is irrelevant. -/
+
+/-- overwrite the cells selected by `inR`, keep the others -/
+def writeRegion (old : M α) (inR : Nat → Nat → Bool) (f : Nat → Nat → α) : M α :=
+  M.tab old.nr old.nc fun i j => if inR i j then f i j else old.get i j
+
+def initTableauBuf (buf : M α) (P : LP α) : M α :=
+  let L := P.m + P.k
+  let N := P.n + P.m + L
+  -- lines 388-393: copy A_ub, A_eq
+  let t1 := writeRegion buf (fun i j => decide (i < L) && decide (j < P.n))
+    (fun i j => if i < P.m then P.Aub i j else P.Aeq (i - P.m) j)
+  -- line 395: tableau[:L, n:-1] = 0
+  let t2 := writeRegion t1 (fun i j => decide (i < L) && decide (P.n ≤ j) && decide (j < N)) (fun _ _ => 0)
+  -- lines 397-412: right-hand sides, sign flips, slack and artificial entries
+  let t3 := writeRegion t2
+    (fun i j => decide (i < L) && (decide (j < P.n) || decide (i < P.m ∧ j = P.n + i)
+      || decide (j = P.n + P.m + i) || decide (j = N)))
+    (fun i j =>
+      let b := if i < P.m then P.bub i else P.beq (i - P.m)
+      if j < P.n then (if b < 0 then - t2.get i j else t2.get i j)
+      else if j = N then (if b < 0 then - b else b)
+      else if j = P.n + P.m + i then 1
+      else (if b < 0 then -1 else 1))
+  -- lines 414-418: criterion row
+  writeRegion t3 (fun i _ => i == L)
+    (fun _ j => if j < P.n + P.m ∨ j = N then sumRows L (fun i => t3.get i j) else 0)
+
 /-! ### lexicographic positivity of the rows (the hypothesis of the textbook termination
     argument for the lexicographic rule; `lexStartOK` is evaluated by the driver) -/
 
@@ -481,7 +511,13 @@ def handleSc (sc : Sc β) (toks : List String) : String :=
     | some n, some m, some k, some Aub, some bub, some Aeq, some beq =>
       if rectangular Aub m n && bub.length == m && rectangular Aeq k n && beq.length == k then
         let P : LP β := ⟨n, m, k, fun _ => 0, fnOfMat Aub, fnOfList bub, fnOfMat Aeq, fnOfList beq⟩
-        s!"T={showMat sc.shw (initTableau P).toRows} basis={showList toString (initBasis P)}"
+        match sc.mat r "buf" with
+        | some rows =>
+          if rectangular rows (m + k + 1) (n + m + (m + k) + 1) then
+            s!"T={showMat sc.shw (initTableauBuf (M.ofRows rows) P).toRows} basis={showList toString (initBasis P)}"
+          else "bad-op"
+        | none =>
+          s!"T={showMat sc.shw (initTableau P).toRows} basis={showList toString (initBasis P)}"
       else "bad-op"
     | _, _, _, _, _, _, _ => "bad-op"
   | "minmax" :: r =>
